@@ -69,8 +69,11 @@ def run(ctx):
             'm.e BETWEEN': Obj('BetweenOperation', op='between', args=[ident('m.e'), const(1), const(2)], alias=None),
             'm.f != 1': binop('!=', ident('m.f'), const(1)),
             'm.ric = 7': binop('=', ident('m.ric'), const(7)),          # the name is a substring of the target's name
+            # the same model column constrained twice (a generated WHERE repeats conjuncts): each conjunct is an argument and none stays a filter
+            'm.a = 1 (again)': binop('=', ident('m.a'), const(1)),
+            '1 = m.a': binop('=', const(1), ident('m.a')),
         }
-    expected_args = {'m.a = 1': ('a', 1), '2 = m.b': ('b', 2), 'm.d = :p': ('d', 'P'), 'm.ric = 7': ('ric', 7)}
+    expected_args = {'m.a = 1': ('a', 1), '2 = m.b': ('b', 2), 'm.d = :p': ('d', 'P'), 'm.ric = 7': ('ric', 7), 'm.a = 1 (again)': ('a', 1), '1 = m.a': ('a', 1)}
     names = list(family())
     subsets = [c for r in range(0, 4) for c in itertools.combinations(names, r)] + [tuple(names)]
     for target_form, subset in itertools.product(('price', ['Price'], ['Price', 'ric2'], None, []), subsets):
